@@ -81,3 +81,80 @@ Proof.
       rewrite (exec_fuel_mono g _ _ _ _ _ Ex (Nat.max f1 f2)) by lia. simpl. apply IHx. exact H. }
     rewrite M. rewrite app_assoc. reflexivity.
 Qed.
+
+(* ---------- values and data flow (execv) ---------- *)
+(* the node whose apply() result the interpreter returns: the last node run if it is a leaf,
+   Python's None otherwise (a do-all decision without branches ran last) *)
+Definition ret_of (g : graph) (tr : list nat) : option nat :=
+  match rev tr with
+  | n :: _ => if is_leaf g n then Some n else None
+  | [] => None
+  end.
+
+Lemma ret_of_app g a b : b <> [] -> ret_of g (a ++ b) = ret_of g b.
+Proof.
+  intros H. unfold ret_of. rewrite rev_app_distr.
+  destruct (rev b) as [|x r] eqn:E; [|reflexivity].
+  apply (f_equal (@rev nat)) in E. rewrite rev_involutive in E. simpl in E. congruence.
+Qed.
+
+Definition flow_ok (g : graph) (tr : list (nat * option nat)) : Prop :=
+  forall x q, In (x, Some q) tr -> is_dec g q = true /\ In x (outs_of g q).
+
+Theorem execv_spec g : forall f from n p tr r v,
+  execv f g from n p = Ok (tr, r, v) ->
+  exec f g n p = Ok (map fst tr, r) /\
+  v = ret_of g (map fst tr) /\
+  (exists tl, tr = (n, from) :: tl /\ flow_ok g tl).
+Proof.
+  induction f as [|f IH]; intros from n p tr r v H; simpl in H; [discriminate|]. simpl.
+  destruct (kind_of g n) as [b|[] noop|name] eqn:K; try discriminate.
+  - inversion H; subst. simpl. split; auto. split.
+    + unfold ret_of, is_leaf. simpl. rewrite K. reflexivity.
+    + exists []. split; auto. intros x q [].
+  - (* do-all *)
+    assert (D : is_dec g n = true) by (unfold is_dec; rewrite K; reflexivity).
+    assert (G : forall l tr0 p0 v0 tr1 r1 v1,
+               (forall t, In t l -> In t (outs_of g n)) ->
+               foldM (fun '(tr, p, _) t => do '(tr', p', v') <- execv f g (Some n) t p; Ok (tr ++ tr', p', v'))
+                     l (tr0, p0, v0) = Ok (tr1, r1, v1) ->
+               exists tl, tr1 = tr0 ++ tl /\
+                 foldM (exec_step g f) l (map fst tr0, p0) = Ok (map fst tr0 ++ map fst tl, r1) /\
+                 (l = [] -> v1 = v0 /\ tl = []) /\ (l <> [] -> tl <> [] /\ v1 = ret_of g (map fst tl)) /\
+                 flow_ok g tl).
+    { induction l as [|t l IHl]; intros tr0 p0 v0 tr1 r1 v1 Sub F; simpl in F.
+      - inversion F; subst. exists []. rewrite !app_nil_r. split; auto. split; auto. split; [auto|]. split; [congruence|]. intros x q [].
+      - destruct (execv f g (Some n) t p0) as [[[tr' p'] v']| | |] eqn:E; simpl in F; try discriminate.
+        destruct (IH _ _ _ _ _ _ E) as (X & Rv & tl' & Etr & Fl).
+        apply IHl in F; [|intros; apply Sub; right; auto].
+        destruct F as (tl & -> & X2 & N1 & N2 & Fl2).
+        exists (tr' ++ tl). rewrite <- app_assoc. split; auto. simpl. rewrite X. simpl.
+        rewrite map_app in X2. rewrite X2. rewrite !map_app, <- app_assoc.
+        split; auto. split; [discriminate|]. split.
+        + intros _. split; [subst tr'; destruct tl'; discriminate|].
+          destruct l as [|t2 l2].
+          * destruct (N1 eq_refl) as [-> ->]. simpl. rewrite app_nil_r. exact Rv.
+          * destruct (N2 ltac:(discriminate)) as [Ne ->].
+            rewrite ret_of_app; auto. destruct tl; [congruence|discriminate].
+        + intros x q Hin. apply in_app_or in Hin. destruct Hin as [Hin|Hin]; [|apply Fl2; exact Hin].
+          subst tr'. destruct Hin as [Hin|Hin]; [|apply Fl; exact Hin].
+          inversion Hin; subst. split; auto. apply Sub. left. reflexivity. }
+    destruct (G _ _ _ _ _ _ _ (fun t Ht => Ht) H) as (tl & -> & X & N1 & N2 & Fl).
+    split; [exact X|]. simpl. split.
+    + destruct (outs_of g n) as [|o os] eqn:O.
+      * destruct (N1 eq_refl) as [-> ->]. unfold ret_of, is_leaf. simpl. rewrite K. reflexivity.
+      * destruct (N2 ltac:(discriminate)) as [Ne ->].
+        change (n :: map fst tl) with ([n] ++ map fst tl). rewrite ret_of_app; auto.
+        destruct tl; [congruence|discriminate].
+    + exists tl. split; auto.
+  - (* choose-one *)
+    destruct p as [|i p']; [discriminate|].
+    destruct (nth_error (outs_of g n) i) as [t|] eqn:N; [|discriminate].
+    destruct (execv f g (Some n) t p') as [[[tr' r'] v']| | |] eqn:E; simpl in H; try discriminate.
+    inversion H; subst. destruct (IH _ _ _ _ _ _ E) as (X & Rv & tl' & Etr & Fl).
+    rewrite X. simpl. split; auto. split.
+    + change (n :: map fst tr') with ([n] ++ map fst tr'). rewrite ret_of_app; auto.
+      subst tr'. discriminate.
+    + exists tr'. split; auto. subst tr'. intros x q [Hin|Hin]; [|apply Fl; exact Hin].
+      inversion Hin; subst. split; [unfold is_dec; rewrite K; reflexivity|]. eapply nth_error_In; eauto.
+Qed.
